@@ -175,7 +175,7 @@ def run(ctx):
         for ru in runs:
             if ru['parent'] is None:
                 evn = type_leaves(vlib.norm_events(ru['events'], ost))
-                cases.append({'wf': typed_wf(wf), 'input': norm, 'noreturn': False, 'subs': {}, 'expectItems': {}, 'declPar': {}, 'pure': False, 'events': evn})
+                cases.append({'wf': typed_wf(wf), 'input': norm, 'noreturn': False, 'subs': {}, 'expectItems': {}, 'declPar': {}, 'closure': {}, 'pure': False, 'events': evn})
                 owner.append((i, tag, rp))
     v, tst, fails = vlib.validate_cases_parallel(cases, ctx.work)
     for bi, o in fails:
